@@ -381,7 +381,7 @@ theorem filter_eq_spec (f : String → Grid Tok → Grid Tok) (sel : Option (Lis
     (hnd : l.elements.Nodup) (hsel : ∀ s, sel = some s → s.Nodup) :
     LaserEq (filterStep f sel l) (filterSpec f sel l) := by
   obtain ⟨h1, h2, h3, h4, h5⟩ := filter_only_selected f sel l hnd hsel
-  exact ⟨h1, h2, h3, h4, fun i j _ _ => funext fun n => h5 i j n⟩
+  exact ⟨h1, h2, h3, h4, fun i j _ _ => funext fun n => (h5 i j n).trans (filterSpec_get f sel l i j n).symm⟩
 
 /-- `stack_eq_spec` lifted to images: stacking fails exactly when the specification has no result
 (no inputs, or inputs with different element lists); otherwise the result has the elements and the
@@ -838,6 +838,20 @@ theorem convert_output (a : Args) (cfg : Option Cfg) (els : Option (List String)
     intro hne
     simp only [restrictSpec, hne, if_false] at hfiles
     exact written_of_specFiles _ _ _ _ hfiles
+
+/-- what `filterSpec` (the image `filter_output` and `run_refines_spec` speak of) is, read off its
+definition: names, configuration and shape of the input; a selected element holds the filter of the
+original element, every other element the original values -/
+theorem filterSpec_reads (f : String → Grid Tok → Grid Tok) (sel : Option (List String)) (l : Laser) :
+    (filterSpec f sel l).elements = l.elements ∧ (filterSpec f sel l).config = l.config ∧
+    (filterSpec f sel l).data.h = l.data.h ∧ (filterSpec f sel l).data.w = l.data.w ∧
+    ∀ i j n, (filterSpec f sel l).data.get i j n =
+      if selected sel l n = true then (f n (l.field n)).get i j else l.data.get i j n :=
+  ⟨rfl, rfl, rfl, rfl, filterSpec_get f sel l⟩
+
+example : (filterSpec (fun _ g => { g with get := fun i j => g.get i j + 10 }) (some ["B", "Z"])
+    { elements := ["A", "B"], data := ⟨1, 1, fun _ _ n => if n = "A" then 1 else 2⟩, config := .raster 1 2 3 }).data.get 0 0 "B" = 12 := by
+  decide
 
 /-- **filter, input by input.**  When the arguments of a `filter` run are accepted, the run ends
 with status ok and, for EVERY input `k`, the derived output `outs[k]` holds the image `filterSpec`
